@@ -471,6 +471,17 @@ pub struct Holder;
 impl Holder {
     pub const SRC3: Src = Src(3);
 }
+// paths of other syntactic forms: qualified self type, generic arguments on a segment
+pub trait HasSrc {
+    const SRC2: Src;
+}
+impl HasSrc for Holder {
+    const SRC2: Src = Src(2);
+}
+pub struct HolderG<T>(pub ::core::marker::PhantomData<T>);
+impl<T> HolderG<T> {
+    pub const SRC1: Src = Src(1);
+}
 impl Pr {
     pub fn same(self) -> Pr {
         self
